@@ -24,7 +24,7 @@ COMPONENTS_REAL = ["geneticengine.representations.tree.initializations (deciders
 COMPONENTS_STUB = ["RandomSource.randint/random_float (SimRandom)", "set iteration order (OrderedSimSet)"]
 ASSUMPTIONS = ["depth = longest chain of nested grammar-class instances; lists, tuples and base values are transparent",
                "a limit between the true minimum and the (conservative) reported minimum may be rejected up-front or served, never failed midway",
-               "grammars in this check have no failing refinements (no Flaky / infeasible Dependent), so 'completes without error' is unconditional"]
+               "'completes without error' is judged on grammars without failing refinements; in the stratum with failing refinements (Flaky, infeasible Dependent) an operation may fail and only the depth of produced programs is judged"]
 
 FEAT = features(list=3, annlist=3, union=2, tuple=1, nested=2, cls=8, refined=2, standalone=1, concrete_start=1, infeasible=0, nested_generic=1, deep_chain=1, self_ref=1, nested_list=1)
 
@@ -67,6 +67,12 @@ def run(ctx):
     feat = dict(FEAT)
     if H.draw(12) == 11:
         feat["infeasible"] = 1
+    # F1 stratum: refinements that fail (Flaky on a seeded plan, Dependent -> VarRange([])) make create_node backtrack near the
+    # depth frontier; an operation may then fail legitimately, so only the depth of what IS produced is judged there
+    failing = H.draw(5) == 4
+    if failing:
+        feat.update(flaky=3, dependent=2, multi_dependent=1)
+        ctx.stat("failing_refinement_runs")
     w = SynthWorld(ctx, feat=feat, reps=("tree", "tree", "ge", "sge", "dsge"), deciders=("grow", "full", "pigrow"))
     try:
         ctx.sample = w.describe()
@@ -140,7 +146,9 @@ def run(ctx):
                 if rr.error == "step-cap":
                     continue
                 # a failing operation
-                if zone == "feasible":
+                if failing:
+                    ctx.stat("failed_with_failing_refinements")
+                elif zone == "feasible":
                     ctx.violate(f"C03/feasible-limit-fails/{cfg}/{rr.foreign or rr.error}",
                                 f"{how} failed although max_depth={d} >= minimum depth (reference {rm}, reported {lm}): {rr.error} {rr.tb}")
                 else:
@@ -155,7 +163,7 @@ def run(ctx):
                     else:
                         ctx.stat("rejected_at_first_use")
         ctx.sample["ops"] = ops[:20]
-        if w.rep_kind == "tree" and zone == "feasible" and H.draw(3) == 2:
+        if w.rep_kind == "tree" and zone == "feasible" and not failing and H.draw(3) == 2:
             initialiser_stratum(ctx, w, d, rm, lm)
     finally:
         w.dispose()
